@@ -616,11 +616,14 @@ func (c *Conn) send(ctx context.Context, f func(context.Context) error) error {
 		if err := c.state.WaitUntilOrClosed(ctx, connStatusConnected); err != nil {
 			return err
 		}
+		epoch := c.state.Reconnects()
 		if err := f(ctx); err != nil {
 			if !errors.Is(err, errors.ErrConnectionClosed) {
 				return err
 			}
-			if c.state.CompareAndSwapNot(connStatusClosed, connStatusReconnecting) {
+			// a failure that comes from a connection which has been replaced in the meantime must
+			// not tear down its successor
+			if c.state.ReconnectFrom(epoch) {
 				continue
 			}
 			return errors.ErrConnectionClosed
